@@ -1,7 +1,306 @@
-(* placeholder, replaced below *)
+(* C09 — the monitor accepts every trace of the abstract book; with
+   Proofs_mem: it accepts every calm trace of the in-memory model; the
+   sentences of the property about A; refuting witnesses for the full
+   (hypothesis-free) statements on both models. *)
 From Coq Require Import List ZArith Bool Lia.
-From Verif Require Import lib.Wire gen.Consts_c09 c09.Abs c09.Model_mem c09.Model_ds c09.Spec.
+From Verif Require Import lib.Wire gen.Consts_c09 c09.Abs c09.Model_mem c09.Model_ds c09.Spec c09.Proofs_mem.
 Import ListNotations.
 Local Open Scope Z_scope.
-Lemma consts_order_l : ConnectedAddrTTL < PermanentAddrTTL.
-Proof. reflexivity. Qed.
+
+Lemma consts_order_l : 0 < TempAddrTTL /\ TempAddrTTL < RecentlyConnectedAddrTTL /\
+  RecentlyConnectedAddrTTL < AddressTTL /\ AddressTTL < ConnectedAddrTTL /\ ConnectedAddrTTL < PermanentAddrTTL.
+Proof. repeat split; reflexivity. Qed.
+
+(* ---- the monitor accepts A's own answers -------------------------------------- *)
+Lemma zmem_in x l : In x l -> zmem x l = true.
+Proof. intros H. unfold zmem. apply existsb_exists. exists x. split; [exact H|apply Z.eqb_refl]. Qed.
+
+Lemma incl_b_sub l1 l2 : (forall x, In x l1 -> In x l2) -> incl_b l1 l2 = true.
+Proof. intros H. unfold incl_b. apply forallb_forall. intros x Hx. apply zmem_in. now apply H. Qed.
+
+Lemma obs_ok_self a cand o :
+  (forall x, In x (a_peers a) -> In x cand) ->
+  let '(a', e) := a_step a o in
+  obs_ok (mkMon a (match o with OGC => a_peers a' | _ => cand end)) a' e o e = true.
+Proof.
+  intros Hc. destruct o; cbn [a_step obs_ok]; try reflexivity.
+  - destruct bad; [cbn; reflexivity|]. destruct (a_consume a p seq id addrs ttl) as [s' ok].
+    cbn [obs_ok]. apply Z.eqb_refl.
+  - cbn [obs_ok]. unfold seteq. now rewrite incl_b_sub by auto.
+  - cbn [obs_ok mo_cand]. rewrite incl_b_sub by auto. now rewrite incl_b_sub by exact Hc.
+  - apply Z.eqb_refl.
+  - rewrite Z.eqb_refl. cbn. apply Z.leb_refl.
+Qed.
+
+Lemma holds_a_from a cand ops :
+  (forall x, In x (a_peers a) -> In x cand) -> holds_from (mkMon a cand) (a_trace a ops) = true.
+Proof.
+  revert a cand. induction ops as [|o r IH]; intros a cand Hc; [reflexivity|].
+  cbn [a_trace]. pose proof (obs_ok_self a cand o Hc) as H.
+  destruct (a_step a o) as [a' e] eqn:E. cbn [holds_from]. unfold mon_step. cbn [mo_a mo_cand].
+  rewrite E. rewrite H. apply IH. intros x Hx. apply in_or_app. now left.
+Qed.
+
+Lemma holds_a_l ops : holds (a_trace a_init ops) = true.
+Proof. apply holds_a_from. intros x []. Qed.
+
+(* the monitor does not look at the heap count *)
+Lemma mon_step_norm m o x : mon_step m o (norm_obs x) = mon_step m o x.
+Proof.
+  unfold mon_step. destruct (a_step (mo_a m) o) as [a' e].
+  destruct x; cbn [norm_obs]; try reflexivity.
+  all: try (destruct o, e; reflexivity).
+Qed.
+
+Lemma holds_norm m tr : holds_from m (map norm_pair tr) = holds_from m tr.
+Proof.
+  revert m. induction tr as [|[o x] r IH]; intros m; [reflexivity|].
+  cbn [map norm_pair fst snd holds_from]. rewrite mon_step_norm. destruct (mon_step m o x); [apply IH|reflexivity].
+Qed.
+
+(* ---- in-memory model: every calm history is accepted --------------------------- *)
+Lemma mem_trace_eq_l ops : calm 0 ops = true ->
+  map norm_pair (m_trace m_init ops) = map norm_pair (a_trace a_init ops).
+Proof. intros H. apply (trace_eq_n (length ops)); [lia|exact Rel_init|exact H]. Qed.
+
+Lemma mem_holds_l ops : calm 0 ops = true -> holds (m_trace m_init ops) = true.
+Proof.
+  intros H. unfold holds. rewrite <- holds_norm, (mem_trace_eq_l ops H), holds_norm. apply holds_a_l.
+Qed.
+
+(* after a calm history followed by a GC-separated state nothing expired is stored *)
+Lemma mem_bounded_l m a : Rel m a -> forall x, In x (m_ents m) -> live (m_now m) (me x) = true.
+Proof.
+  intros [Hnow Hents _ _ Hgood _ _ _] x Hx. rewrite Hnow. apply Hgood. rewrite <- Hents. now apply in_map.
+Qed.
+
+Lemma rel_run_n n : forall ops m a, (length ops <= n)%nat -> Rel m a -> calm (a_now a) ops = true ->
+  Rel (m_run m ops) (a_run a ops).
+Proof.
+  induction n as [|n IH]; intros ops m a Hlen HR Hc.
+  - destruct ops; [exact HR|cbn in Hlen; lia].
+  - destruct ops as [|o r]; [exact HR|].
+    assert (Generic : op_calm o = true -> calm (a_now a) r = true -> Rel (m_run m (o :: r)) (a_run a (o :: r))).
+    { intros Ho Hr. destruct (step_calm m a o HR Ho) as [HR' _]. cbn [m_run a_run].
+      apply IH; [cbn in Hlen; lia|exact HR'|]. now rewrite (a_step_now a o Ho). }
+    destruct o; try (cbn [calm] in Hc; apply andb_true_iff in Hc; destruct Hc as [H1 H2]; now apply Generic).
+    destruct r as [|o2 r2]; [cbn in Hc; discriminate|].
+    destruct o2; try (cbn in Hc; discriminate).
+    cbn [calm] in Hc. apply andb_true_iff in Hc. destruct Hc as [Hc H3].
+    apply andb_true_iff in Hc. destruct Hc as [H1 H2]. apply Z.leb_le in H1. apply Z.ltb_lt in H2.
+    destruct (step_advance_gc m a d HR H1 H2) as [HR' _].
+    cbn [m_run a_run]. apply IH; [cbn in Hlen; lia|exact HR'|].
+    cbn [a_step fst]. replace (a_now (a_advance a d)) with (a_now a + d); [exact H3|].
+    unfold a_advance, mk_norm. destruct (normalize _ _ _). reflexivity.
+Qed.
+
+Lemma mem_state_l ops : calm 0 ops = true ->
+  let m := m_run m_init ops in
+  (forall x, In x (m_ents m) -> live (m_now m) (me x) = true) /\
+  (forall x, In x (m_ents m) -> mheap x = negb (conn (ettl (me x)))) /\
+  (forall r, In r (m_recs m) -> m_has_peer (rp r) (m_ents m) = true).
+Proof.
+  intros H. pose proof (rel_run_n (length ops) ops m_init a_init (le_n _) Rel_init H) as R.
+  cbn zeta. split; [|split].
+  - intros x Hx. eapply mem_bounded_l; eauto.
+  - destruct R. auto.
+  - destruct R as [_ He Hr _ _ Hok _ _]. intros r Hin. rewrite has_peer_erase, He. apply Hok. now rewrite <- Hr.
+Qed.
+
+(* ---- sentences of the property, about A ----------------------------------------- *)
+Definition a_ok (s : abook) : Prop :=
+  all_live (a_now s) (a_ents s) /\ recs_ok (a_ents s) (a_recs s).
+
+Lemma mk_norm_ok now ents recs : a_ok (mk_norm now ents recs).
+Proof.
+  unfold mk_norm, normalize, a_ok. cbn. split.
+  - intros e He. apply filter_In in He. tauto.
+  - intros r Hr. apply filter_In in Hr. tauto.
+Qed.
+
+Lemma a_step_ok s o : a_ok s -> a_ok (fst (a_step s o)).
+Proof.
+  intros H. destruct o; cbn [a_step fst]; try exact H; try apply mk_norm_ok.
+  - unfold a_add. destruct (_ <=? _); [exact H|apply mk_norm_ok].
+  - destruct H as [Hl Hr]. unfold a_clear, a_ok. cbn. split.
+    + intros e He. apply filter_In in He. now apply Hl.
+    + intros r Hin. unfold remove_rec in Hin. apply filter_In in Hin. destruct Hin as [Hin Hne].
+      apply negb_true_iff, Z.eqb_neq in Hne. specialize (Hr r Hin). unfold has_peer in *.
+      rewrite existsb_exists in *. destruct Hr as [x [Hx Hp]]. exists x. split; [|exact Hp].
+      apply filter_In. split; [exact Hx|]. apply Z.eqb_eq in Hp. apply negb_true_iff, Z.eqb_neq. congruence.
+  - destruct bad; [exact H|]. unfold a_consume.
+    destruct (match find_rec p (a_recs s) with Some r => seq <? rseq r | None => false end); cbn [fst]; [exact H|].
+    apply mk_norm_ok.
+Qed.
+
+Lemma a_run_ok ops : forall s, a_ok s -> a_ok (a_run s ops).
+Proof. induction ops as [|o r IH]; intros s H; [exact H|]. cbn [a_run]. apply IH. now apply a_step_ok. Qed.
+
+Lemma a_init_ok : a_ok a_init.
+Proof. split; intros ? []. Qed.
+
+(* expired addresses are never returned *)
+Lemma expired_never_returned_l ops p a :
+  let s := a_run a_init ops in
+  In a (a_addrs s p) -> exists e, In e (a_ents s) /\ ep e = p /\ ea e = a /\ a_now s < eexp e.
+Proof.
+  cbn zeta. intros H. destruct (a_run_ok ops a_init a_init_ok) as [Hl _].
+  unfold a_addrs in H. apply in_map_iff in H. destruct H as [e [Ha He]]. apply filter_In in He.
+  destruct He as [He Hp]. exists e. repeat split; auto; [now apply Z.eqb_eq|].
+  specialize (Hl e He). unfold live in Hl. now apply Z.ltb_lt.
+Qed.
+
+(* a record is retrievable only while the peer has a live address *)
+Lemma record_needs_live_l ops p :
+  let s := a_run a_init ops in a_getrec s p <> 0 -> a_addrs s p <> [].
+Proof.
+  cbn zeta. intros H. destruct (a_run_ok ops a_init a_init_ok) as [_ Hr].
+  unfold a_getrec in H. destruct (find_rec p (a_recs (a_run a_init ops))) as [r|] eqn:F; [|congruence].
+  unfold find_rec in F. apply find_some in F. destruct F as [Hin Hp]. apply Z.eqb_eq in Hp.
+  specialize (Hr r Hin). rewrite Hp in Hr. unfold has_peer in Hr. apply existsb_exists in Hr.
+  destruct Hr as [e [He Hpe]]. unfold a_addrs. intros Z0.
+  assert (In e (filter (fun e0 => ep e0 =? p) (a_ents (a_run a_init ops)))) by (apply filter_In; tauto).
+  destruct (filter _ _); [contradiction|discriminate].
+Qed.
+
+(* adding never shortens: every entry present before is present after with at least its TTL and expiry *)
+Lemma add_never_shortens_l s p addrs ttl e :
+  a_ok s -> In e (a_ents s) ->
+  exists e', In e' (a_ents (a_add s p addrs ttl)) /\ ep e' = ep e /\ ea e' = ea e /\
+             ettl e <= ettl e' /\ eexp e <= eexp e'.
+Proof.
+  intros [Hl _] He. unfold a_add. destruct (ttl <=? 0); [exists e; repeat split; auto; lia|].
+  assert (K : forall l l0, (exists e0, In e0 l0 /\ ep e0 = ep e /\ ea e0 = ea e /\ ettl e <= ettl e0 /\ eexp e <= eexp e0) ->
+              exists e', In e' (add_list p ttl (a_now s) l l0) /\ ep e' = ep e /\ ea e' = ea e /\
+                         ettl e <= ettl e' /\ eexp e <= eexp e').
+  { unfold add_list. induction l as [|a t IH]; intros l0 H; cbn [fold_left]; [exact H|]. apply IH.
+    destruct H as [e0 [H0 [H1 [H2 [H3 H4]]]]].
+    revert H0. induction l0 as [|x r IHr]; intros H0; [destruct H0|]. cbn [upsert_ext].
+    destruct (key_is p a x) eqn:Kx.
+    - destruct H0 as [->|H0].
+      + destruct (key_is_eq _ _ _ Kx) as [Hp Ha]. eexists. split; [now left|]. cbn. repeat split; try congruence; lia.
+      + exists e0. split; [now right|tauto].
+    - destruct H0 as [->|H0]; [exists e0; split; [now left|tauto]|].
+      destruct (IHr H0) as [e' [Hi Hrest]]. exists e'. split; [now right|exact Hrest]. }
+  destruct (K (clean_addrs addrs) (a_ents s)) as [e' [Hin [H1 [H2 [H3 H4]]]]];
+    [exists e; repeat split; auto; lia|].
+  exists e'. split; [|tauto]. unfold mk_norm, normalize. cbn. apply filter_In. split; [exact Hin|].
+  specialize (Hl e He). unfold live in *. apply Z.ltb_lt in Hl. apply Z.ltb_lt. lia.
+Qed.
+
+Lemma filter_filter {A} (f g : A -> bool) l : filter f (filter g l) = filter (fun x => g x && f x) l.
+Proof.
+  induction l as [|x r IH]; cbn [filter]; [reflexivity|].
+  destruct (g x); cbn [filter andb]; [destruct (f x)|]; now rewrite IH.
+Qed.
+
+(* setting a non-positive TTL removes exactly the named addresses *)
+Lemma set_nonpositive_removes_exactly_l s p addrs ttl :
+  a_ok s -> ttl <= 0 ->
+  a_ents (a_set s p addrs ttl) =
+  filter (fun e => negb ((ep e =? p) && zmem (ea e) (clean_addrs addrs))) (a_ents s).
+Proof.
+  intros [Hl _] Ht. rewrite a_set_unfold.
+  assert (F : forall l l0, set_fold_a p ttl (a_now s + ttl) l l0 =
+                           filter (fun e => negb ((ep e =? p) && zmem (ea e) l)) l0).
+  { unfold set_fold_a, a_set_one. replace (0 <? ttl) with false by (symmetry; apply Z.ltb_ge; lia).
+    induction l as [|a t IH]; intros l0; cbn [fold_left].
+    - symmetry. apply filter_id. intros e _. cbn. now rewrite andb_false_r.
+    - rewrite IH. unfold remove_ent. rewrite filter_filter. apply filter_ext. intros e.
+      unfold key_is, zmem. cbn [existsb]. rewrite (Z.eqb_sym (ea e) a).
+      destruct (ep e =? p), (a =? ea e), (existsb (Z.eqb (ea e)) t); reflexivity. }
+  rewrite F. unfold mk_norm, normalize. cbn. apply filter_id. intros e He. apply filter_In in He. now apply Hl.
+Qed.
+
+(* a signed record is accepted only if its seq is not lower than the stored one *)
+Lemma record_seq_monotone_l s p seq id addrs ttl r :
+  find_rec p (a_recs s) = Some r -> snd (a_consume s p seq id addrs ttl) = true -> rseq r <= seq.
+Proof.
+  intros F. unfold a_consume. rewrite F. destruct (Z.ltb_spec seq (rseq r)); cbn [snd]; [discriminate|]. intros _. lia.
+Qed.
+
+(* ---- the full statements are false of the faithful models: witnesses ------------ *)
+Definition CONN := ConnectedAddrTTL.
+Definition s_ (n : Z) : Z := n * SEC.
+
+(* (a) lower seq after expiry, before gc *)
+Definition wit_stale_seq : list op :=
+  [OConsume 1 5 1 (s_ 120) false [(1, 0)]; OAdvance (s_ 180); OConsume 1 3 2 (s_ 3600) false [(2, 0)]; OAddrs 1].
+(* (b) re-adding an expired, uncollected entry keeps its TTL class *)
+Definition wit_stale_class : list op :=
+  [OAdd 1 (s_ 3600) [(1, 0)]; OAdvance (s_ 7200); OAdd 1 (s_ 120) [(1, 0)]; OUpdate 1 (s_ 3600) 0; OAddrs 1].
+(* (c) UpdateAddrs gives an expired entry a new life *)
+Definition wit_resurrect : list op :=
+  [OAdd 1 (s_ 120) [(1, 0)]; OAdvance (s_ 180); OUpdate 1 (s_ 120) (s_ 3600); OAddrs 1].
+(* (d) the record of a peer whose addresses all expired comes back (both stores) *)
+Definition wit_lapsed_record : list op :=
+  [OConsume 1 5 1 (s_ 120) false [(1, 0)]; OAdvance (s_ 180); OAdd 1 (s_ 3600) [(2, 0)]; OGetRec 1].
+(* ds, cache on: removing the last address by name keeps the record object *)
+Definition wit_ds_set0 : list op :=
+  [OConsume 1 5 1 (s_ 3600) false [(1, 0)]; OSet 1 0 [(1, 0)]; OAdd 1 (s_ 3600) [(2, 0)]; OGetRec 1].
+(* record listing an address with /p2p/<self> *)
+Definition wit_suffix : list op :=
+  [OConsume 1 1 1 (s_ 3600) false [(1, 1); (2, 0)]; OConsume 1 2 2 (s_ 120) false [(3, 0)]; OAddrs 1].
+(* ds, cache on, lookahead GC: the cached copy hides the expired datastore record *)
+Definition wit_ds_gc : list op :=
+  [OAdd 1 (s_ 120) [(1, 0)]; OAdvance (s_ 180); OGetRec 1; OGC; OPeers].
+
+Lemma mem_refuted_l :
+  holds (m_trace m_init wit_stale_seq) = false /\ holds (m_trace m_init wit_stale_class) = false /\
+  holds (m_trace m_init wit_resurrect) = false /\ holds (m_trace m_init wit_lapsed_record) = false /\
+  holds (m_trace m_init wit_suffix) = false.
+Proof. repeat split; vm_compute; reflexivity. Qed.
+
+Lemma ds_refuted_l :
+  holds (d_trace (d_init false 0) wit_lapsed_record) = false /\
+  holds (d_trace (d_init true 0) wit_lapsed_record) = false /\
+  holds (d_trace (d_init true 0) wit_ds_set0) = false /\
+  holds (d_trace (d_init false 0) wit_ds_set0) = true /\
+  holds (d_trace (d_init true 0) wit_suffix) = false /\
+  holds (d_trace (d_init true (s_ 30)) wit_ds_gc) = false /\
+  holds (d_trace (d_init true 0) wit_ds_gc) = true.
+Proof. repeat split; vm_compute; reflexivity. Qed.
+
+(* the two books answer differently on the same history *)
+Lemma mem_ds_differ_l :
+  map snd (m_trace m_init wit_stale_seq) <> map snd (d_trace (d_init true 0) wit_stale_seq) /\
+  map snd (d_trace (d_init false 0) wit_ds_set0) <> map snd (d_trace (d_init true 0) wit_ds_set0).
+Proof. split; vm_compute; discriminate. Qed.
+
+(* reopen changes an answer: the cached record object is gone after reopen *)
+Definition wit_reopen (re : bool) : list op :=
+  [OConsume 1 5 1 (s_ 3600) false [(1, 0)]; OSet 1 0 [(1, 0)]] ++ (if re then [OReopen] else []) ++
+  [OAdd 1 (s_ 3600) [(2, 0)]; OGetRec 1].
+Lemma ds_reopen_differs_l :
+  last (map snd (d_trace (d_init true 0) (wit_reopen false))) ONone <>
+  last (map snd (d_trace (d_init true 0) (wit_reopen true))) ONone.
+Proof. vm_compute. discriminate. Qed.
+
+(* the repaired defects stay repaired in the models *)
+Definition wit_fixed1 : list op :=
+  [OAdd 1 CONN [(1, 0)]; OUpdate 1 CONN (s_ 120); OAdvance (s_ 120); OGC; OPeers].
+Definition wit_fixed2 : list op :=
+  [OAdd 1 (s_ 3600) [(1, 0); (2, 0); (3, 0)]; OSet 1 0 [(1, 0); (3, 0)]; OAddrs 1].
+Lemma fixed_witnesses_l :
+  holds (m_trace m_init wit_fixed1) = true /\ holds (d_trace (d_init true 0) wit_fixed1) = true /\
+  holds (m_trace m_init wit_fixed2) = true /\ holds (d_trace (d_init false 0) wit_fixed2) = true /\
+  snd (last (d_trace (d_init false 0) wit_fixed2) (OPeers, ONone)) = OList [2].
+Proof. repeat split; vm_compute; reflexivity. Qed.
+
+(* non-vacuity: a calm history that exercises every operation, and the monitor rejecting bad traces *)
+Definition calm_example : list op :=
+  [OConsume 1 2 1 (s_ 900) false [(1, 0); (2, 0)]; OAdd 2 CONN [(3, 1); (4, 2)]; OUpdate 2 CONN (s_ 120);
+   OAdvance (s_ 120); OGC; OPeers; OAddrs 2; OSet 1 0 [(1, 0)]; OConsume 1 1 2 (s_ 900) false [(3, 0)];
+   OGetRec 1; OAdvance (s_ 780); OGC; OGetRec 1; OClear 1].
+Lemma calm_example_l : calm 0 calm_example = true /\
+  map snd (m_trace m_init calm_example) =
+  [OVal 1; ONone; ONone; ONone; OSizes 2 1 2; OList [1]; OList []; ONone; OVal 0; OVal 1; ONone; OSizes 0 0 0; OVal 0; ONone].
+Proof. split; vm_compute; reflexivity. Qed.
+
+Lemma monitor_rejects_l :
+  holds [(OAdd 1 (s_ 120) [(1, 0)], ONone); (OAdvance (s_ 120), ONone); (OAddrs 1, OList [1])] = false /\
+  holds [(OAdd 1 (s_ 120) [(1, 0)], ONone); (OAdvance (s_ 120), ONone); (OGC, OSizes 1 0 0)] = false /\
+  holds [(OAdd 1 (s_ 120) [(1, 0)], ONone); (OAdvance (s_ 120), ONone); (OGC, OSizes 0 0 0); (OPeers, OList [1])] = false /\
+  holds [(OConsume 1 5 1 (s_ 120) false [(1, 0)], OVal 1); (OConsume 1 4 2 (s_ 120) false [(1, 0)], OVal 1)] = false /\
+  holds [(OAdd 1 (s_ 120) [(1, 0)], ONone); (OAdvance (s_ 119), ONone); (OAddrs 1, OList [1])] = true.
+Proof. repeat split; vm_compute; reflexivity. Qed.
